@@ -55,7 +55,7 @@ MCLiveSpec == MCSpec /\ WF_mcvars(SrcStep)
 EveryOpTerminates == (pc = "reading") ~> (pc = "idle")
 
 \* history-free view: res / cur.gb are observation variables
-View == <<src, R, g.c - g.rmark, g.gaveUp, g.opEmptySeen, pc, cur.op, cur.n, policy, nops, flavour,
+View == <<src, R, g.c - g.rmark, g.gaveUp, g.trail, pc, cur.op, cur.n, policy, nops, flavour,
           (res.op \notin {"none", "release"}) => AbsAccepts(cur.gb, g, src, res)>>
 
 \* Every completed operation is accepted by the abstract contract.
